@@ -378,6 +378,14 @@ def gen_cases(tier, seed):
     rng = random.Random(seed * 7919 + 10)
     for c in corpus_cases():
         yield c
+    from . import sched
+    erng = random.Random(seed * 7919 + 1010)
+    bases = list(corpus_cases())
+    while len(bases) < 40:
+        ls = gen_case(erng, "quick")
+        if sum(1 for l in ls if l.startswith("thread")) >= 2 and len(ls) <= 30:
+            bases.append((f"gen{len(bases)}", ls))
+    yield from sched.enum_cases(PROP, HARNESS, bases, tier, os.path.join(common.BUILD, "sched-c10"))
     for i in range(4000 if tier == "quick" else 60000):
         yield (f"rand-{i}", gen_case(rng, tier))
 
